@@ -13,8 +13,10 @@ H    := id x y txt:hex type uiParent uiYang (~ | + TD)
 TD   := w h out:hex in:hex desc:hex ext:hex subidx rotate:tok render:hex (~ | + w h subidx type:hex shrink border) nS S^nS
 S    := objType:hex x y w h r rx ry style:hex idx
 P    := isButton isBinary isPulsed isAbsolute isIntensity hasDisplay hasLED hasSteps ledBarSteps isMotorized inputType:hex
-RES  := ids n id^n | xy x y | txt hex | td TD | err msg:hex | hwc H | p P | tp TD P | panic
+RES  := ids n id^n | xy x y | txt hex | td TD | err msg:hex | hwc H | p P | tp TD P | panic | argmod
 ```
+`argmod` (instead of the result): an argument object passed to the library differs afterwards from a deep copy taken before
+(the free-standing component of `resolveAx`, the definition the predicates are asked about): clause `argument-modified`.
 A look-up record's output is `RES json`; `topo.load T | json`; `topo.randomize seq | T json`; `topo.clean | T json`;
 `topo.roundtrip | ok T json same:01` or `err`.  `json` is the canonical text of `ToJSON()`.
 `topo.jsonraw | hex(ToJSON()) same:01` — the raw bytes of `ToJSON()` (compared with the model's text layer, `Model/TopoJsonText`),
@@ -23,6 +25,16 @@ A look-up record's output is `RES json`; `topo.load T | json`; `topo.randomize s
 resolveB k | resolveBid id | defid id: the getter is called, the harness writes through the returned value's `Sub[0]` / `Disp` /
 `TypeOverride` (`had` = there was something to write through), records whether `ToJSON()` changed, and undoes the write;
 `json` = `ToJSON()` after the undo.  The model side is the store-of-cells model (`Model/TopoAlias`).
+
+Histories on ONE `Topology` object (the harness keeps the object between records; `topo.load` makes a new one):
+`topo.assign MODE T | json` — MODE := fresh | inplace: the value `T` is written into the existing object through its exported
+fields (new cells everywhere / existing cells reused where the shapes match); the driver's topology becomes `T`.
+`topo.wedit VIA GETTER args | RES json1 T json2` — VIA := sub | disp | ov | own | ownrefs: the getter is called (`RES json1`, judged like
+any look-up), the caller edits what it was handed WITHOUT undoing it (`own`: every field of the returned struct overwritten,
+`ownrefs`: its `Disp`/`Sub` pointed at new cells); `T json2` = the topology afterwards as read through the exported fields /
+`ToJSON()`.  The model predicts `T` with the store-of-cells model (`Alias.writeVia`); the driver's topology becomes the observed
+`T`, so every later look-up is judged against the topology as it stands.
+`topo.pred2 TD TD' | p P p P` — the predicates on ONE definition object, before and after all its fields were assigned from `TD'`.
 -/
 namespace RawPanelVerif.Driver.Topo
 open RawPanelVerif RawPanelVerif.Wire RawPanelVerif.Topo
@@ -274,14 +286,75 @@ def stepOk (st : St) (cmd : String) (args : List String) (impl : String) : St ×
     | some r =>
       let h := match r with
         | none => Spec.Topo.checkRoundTrip st.t st.prevJ none []
-        | some (t', j2, _) => Spec.Topo.checkRoundTrip st.t st.prevJ (some t') j2
+        | some (t', j2, same) => (Spec.Topo.checkRoundTrip st.t st.prevJ (some t') j2).orElse (fun _ => Spec.Topo.checkSerialisers same)
       let ms := match fromJSON (toJSON st.t) with
         | none => "err"
         | some mt => " ".intercalate (["ok"] ++ sTopo mt ++ [sTok (serialise mt), "1"])
       (st, answer (ms = " ".intercalate implToks) h ms [])
   | "topo.jsonraw" =>
     let ms := s!"{sHex (toJSONText st.t)} 1"
-    (st, answer (ms = " ".intercalate implToks) none ms [])
+    let h := match implToks with
+      | [_, same] => Spec.Topo.checkSerialisers (same != "0")
+      | _ => some "shape"
+    (st, answer (ms = " ".intercalate implToks) h ms [])
+  | "topo.assign" =>
+    match args with
+    | mode :: rest =>
+      if mode ≠ "fresh" && mode ≠ "inplace" then (st, "ERR bad-record") else
+      match run pTopo rest with
+      | none => (st, "ERR bad-record")
+      | some t =>
+        let mj := serialise t
+        let ij := implToks.headD "" |>.toList.map (fun c => c.toNat.toUInt8)
+        let eq := decide (ij = mj) && implToks.length == 1
+        ({ st with t := t, prevJ := ij }, answer eq none (sTok mj) [mode])
+    | _ => (st, "ERR bad-record")
+  | "topo.wedit" =>
+    match args with
+    | viaS :: getter :: rest =>
+      let via? : Option Alias.Via := match viaS with
+        | "sub" => some .sub | "disp" => some .disp | "ov" => some .ov | "own" => some .own | "ownrefs" => some .ownrefs | _ => none
+      let lay := Alias.layTopo st.t
+      let q? : Option Query := if getter = "resolveAx" then (run pHWc rest).map .resolveAx else parseQuery ("topo." ++ getter) rest
+      match via?, q? with
+      | some via, some q =>
+        let (h0, r) : Alias.Heap × (Alias.ResR × Alias.Heap) := match q with
+          | .resolveAx c => let p := Alias.layHWc lay.1 c; (p.1, Alias.execRx p.1 lay.2 p.2)
+          | q => (lay.1, Alias.execR lay.1 lay.2 q)
+        let _ := h0
+        let (ma, _) := exec st.t q
+        let h' := (Alias.writeVia r.2 r.1 via).getD r.2
+        let mt := Alias.absTopo h' lay.2
+        let ms := " ".intercalate (sResult ma.res ++ [sTok ma.after] ++ sTopo mt ++ [sTok (serialise mt)])
+        let eq := ms = " ".intercalate implToks
+        let wrote := (Alias.writeVia r.2 r.1 via).isSome
+        let tags := branchTags st.t q ++ ["wedit-" ++ viaS, "wedit-" ++ getter, if !wrote then "nothing" else if mt = st.t then "topo-same" else "topo-changed"]
+        match run (do let a ← pAnswer; let t' ← pTopo; let j ← pTok; pure (a, t', j)) implToks with
+        | none => (st, answer eq (some "shape") ms tags)
+        | some (ia, t', j2) =>
+          let h := Spec.Topo.checkLookup st.t st.prevJ q ia
+          ({ st with t := t', prevJ := j2 }, answer eq h ms tags)
+      | _, _ => (st, "ERR bad-record")
+    | _ => (st, "ERR bad-record")
+  | "topo.pred2" =>
+    match run (do let a ← pTD; let b ← pTD; pure (a, b)) args with
+    | none => (st, "ERR bad-record")
+    | some (td1, td2) =>
+      let ms := " ".intercalate (("p" :: sPreds (predsOf td1)) ++ ("p" :: sPreds (predsOf td2)))
+      let eq := ms = " ".intercalate implToks
+      let pP : P Preds := do let k ← tok; if k = "p" then pPreds else failure
+      match run (do let a ← pP; let b ← pP; pure (a, b)) implToks with
+      | none => (st, answer eq (some (if implToks.contains "argmod" then "argument-modified" else "shape")) ms ["pred2"])
+      | some (p1, p2) =>
+        let h := match Spec.Topo.checkPreds td1 p1 with
+          | some e => some e
+          | none => Spec.Topo.checkPreds td2 p2
+        let x1 := (td1, p1)
+        let x2 := (td2, p2)
+        let h := if h.isNone && !(Spec.Topo.predsConsistent st.cache x1 && Spec.Topo.predsConsistent (x1 :: st.cache) x2) then some "preds" else h
+        let cache := if st.cache.contains x1 then st.cache else x1 :: st.cache
+        let cache := if cache.contains x2 then cache else x2 :: cache
+        ({ st with cache := cache }, answer eq h ms ["pred2", if td1.inp = td2.inp then "same-in" else "in-changed"])
   | "topo.alias" =>
     match args with
     | viaS :: getter :: rest =>
@@ -316,7 +389,7 @@ def stepOk (st : St) (cmd : String) (args : List String) (impl : String) : St ×
       let ms := sAnswer ma
       let eq := ms = " ".intercalate implToks
       match run pAnswer implToks with
-      | none => (st, answer eq (some "shape") ms (branchTags st.t q))
+      | none => (st, answer eq (some (if implToks.contains "argmod" then "argument-modified" else "shape")) ms (branchTags st.t q))
       | some ia =>
         let h := Spec.Topo.checkLookup st.t st.prevJ q ia
         let (h, cache) := match Spec.Topo.predPair q ia.res with
